@@ -792,3 +792,36 @@ func fixedSpecs(b *baseFont) []SynthSpec {
 		subFormat4([]seg4{{Start: 0x41, End: 0x43, Delta: 100, ArrIndex: -1}, {Start: 0xF041, End: 0xF05A, Delta: dl(10, 0xF041), ArrIndex: -1}, sent}, nil)}))
 	return out
 }
+
+// NamedFile is a harness-built font file.
+type NamedFile struct {
+	Name string
+	Data []byte
+}
+
+// WellFormedCmapFonts builds a few fonts on the donor (AdobeBlank2: glyphs 0 and 1) whose
+// character maps are valid and use the corners of the formats no corpus font has: a
+// format 4 segment with both a glyph index array and a non-zero idDelta (zero entries
+// stay 0), delta arithmetic that wraps modulo 65536, formats 6 and 12 with holes. Used
+// by C10, which compares the mapping with independent decoders.
+func WellFormedCmapFonts() []NamedFile {
+	b, err := loadBase(preferredBase)
+	if err != nil || b == nil || b.id != preferredBase {
+		return nil
+	}
+	sent := seg4{Start: 0xFFFF, End: 0xFFFF, Delta: 1, ArrIndex: -1}
+	mk := func(name string, recs ...encRec) NamedFile {
+		return NamedFile{Name: name, Data: assemble(b, SynthSpec{Base: b.id, Cmap: buildCmap(recs), OS2: b.os2, Mode: "donor", Class: "wellformed/" + name})}
+	}
+	return []NamedFile{
+		mk("f4-array-and-negative-delta", encRec{3, 1, subFormat4([]seg4{
+			{Start: 0x41, End: 0x44, Delta: 0xFFFF, ArrIndex: 0}, {Start: 0x61, End: 0x62, Delta: 0xFFFF, ArrIndex: 4}, sent}, []uint16{2, 0, 2, 2, 0, 2})}),
+		mk("f4-array-and-positive-delta", encRec{3, 1, subFormat4([]seg4{
+			{Start: 0x41, End: 0x43, Delta: 2, ArrIndex: 0}, sent}, []uint16{0xFFFF, 0, 0xFFFF})}),
+		mk("f4-single-rune-segments-delta-wrap", encRec{3, 1, subFormat4([]seg4{
+			{Start: 0x100, End: 0x100, Delta: 0xFF01, ArrIndex: -1}, {Start: 0x2000, End: 0x2000, Delta: 0xE001, ArrIndex: -1},
+			{Start: 0xFFFE, End: 0xFFFE, Delta: 3, ArrIndex: -1}, sent}, nil)}),
+		mk("f6-with-holes", encRec{3, 1, subFormat6(0x30, []uint16{1, 0, 1, 1, 0})}),
+		mk("f12-bmp-and-astral", encRec{3, 10, subFormat12or13(12, []group{{0x41, 0x41, 1}, {0x1F600, 0x1F600, 1}, {0x10FFFF, 0x10FFFF, 1}})}),
+	}
+}
